@@ -12,7 +12,7 @@ from ..rng import Streams, weighted
 
 ID = 'C14'
 LEVEL = 'exploration'
-TIERS = {'quick': 20000, 'thorough': 1000000}
+TIERS = {'quick': 20000, 'thorough': 700000}
 RULE = ('seeded histories (swarm: half of the runs <= 5 ops, the rest 6-40) of single container operations '
         '{push,pop,pop(i),insert,remove,read,slice,write,compound write,del,get,index_of,keys/values/items,len,in} '
         'evaluated one per eval call on one long-lived SqParser against host-owned lists/dicts (nested, '
